@@ -303,6 +303,10 @@ class B(object):
             a, b = self.name(), self.name()
             if a == b:
                 return a, [a]
+            c = self.name()
+            if c not in (a, b) and self.draw(st.booleans()):
+                self.features.add('starred-sequence-target')
+                return self.draw(st.sampled_from(['%s, *(%s, %s)', '*[%s, %s], %s', '*(%s, %s), %s'])) % (a, b, c), [a, b, c]
             self.features.add('starred-target')
             return '%s, *%s' % (a, b), [a, b]
         n = self.name()
